@@ -10,7 +10,9 @@ META = {
     'bounds': {
         'quick': 'every key of the css table (exhaustive) without scope and under @@property/@@section; every single-word dash-free keyword '
                  'alternative of every property snippet in lower/UPPER/aLtErNaTiNg case; every ordered pair of distinct user keys over '
-                 '{q,w,-} (<=3 chars, starting with a letter) plus override of 6 built-in keys',
+                 '{q,w,-} (<=3 chars, starting with a letter) plus override of 6 built-in keys; every function keyword with a dash- and digit-free name typed by its '
+                 'name (alone, after a use with arguments in the same abbreviation, after such a use in an earlier call sharing the cache); user raw '
+                 'snippets: 5 bodies x 9 placeholder texts (with colons, blanks, parentheses, empty)',
         'thorough': 'the same for all six stylesheet syntaxes',
     },
     'outside_claim': ['keywords containing dashes or listed only inside multi-token alternatives', 'keys that differ only in letter case',
@@ -200,6 +202,85 @@ def mk_override():
             'functions': ['config.merged_data (user snippets over built-ins)', 'stylesheet.convert_snippets']}
 
 
+def function_keyword_cases(syntax):
+    """(key, property, function name, alternative text) for alternatives that are one function call with a dash- and digit-free name"""
+    out = []
+    for key, text in table(syntax):
+        d = read_definition(text)
+        if d[0] != 'property':
+            continue
+        for alt in d[2]:
+            m = re.match(r'^([a-z]+)\((.*)\)$', alt)
+            if m:
+                out.append((key, d[1], m.group(1), alt))
+    return out
+
+
+def mk_function_keywords(syntax):
+    """A function keyword typed by its name resolves to the listed call - also after the same keyword was used WITH arguments,
+    in the same abbreviation or in an earlier call that shares the converted snippet table (cache)."""
+    from vf.pipe import make_css_config, expand_concrete_tokens
+    from vf.props.c05 import SYNTAX
+    cases = function_keyword_cases(syntax)
+    between, after = SYNTAX.get(syntax, (': ', ';'))
+
+    def harness(wrong):
+        def h(i: int, mode: int):
+            if not (0 <= i < len(cases) and 0 <= mode <= 2):
+                return 'skip'
+            key, prop, fname, alt = cases[i]
+            cfg = make_css_config({'type': 'stylesheet', 'syntax': syntax})
+            exp = prop + between + render(alt) + after + (' ' if wrong else '')
+            typed = key + ':' + fname
+            if mode == 0:
+                out = expand_concrete_tokens(typed, cfg)
+            elif mode == 1:
+                both = expand_concrete_tokens(typed + '(7, 8)+' + typed, cfg)
+                out = both.split('\n')[-1]
+            else:
+                expand_concrete_tokens(typed + '(7, 8)', cfg)
+                out = expand_concrete_tokens(typed, cfg)
+            return True if norm(out) == norm(exp) and not wrong or out == exp else 'function_keyword_not_resolved:%s:mode%d' % (typed, mode)
+        return h
+    return {'fn': harness(False), 'twin': harness(True), 'witnesses': [{'i': 0, 'mode': 0}, {'i': len(cases) - 1, 'mode': 2}],
+            'assumptions': ['syntax %s; every (key, function keyword) of the table whose name is dash- and digit-free (%d cases, solver-chosen); '
+                            'mode 0 `key:name`, mode 1 `key:name(7, 8)+key:name` (last line observed), mode 2 two calls sharing one Config/cache' % (
+                                syntax, len(cases))],
+            'functions': ['stylesheet.resolve_value_keywords', 'resolve_keyword', 'stylesheet.snippets.collect_keywords']}
+
+
+RAW_PLACEHOLDERS = ['own', 'min-width: 768px', 'a:b', 'http://e.com/a.css', 'a b', '1:2:3', '', 'x-y', 'f(1, 2)']
+RAW_BODIES = ['@zq (${1:P}) { ${2} }', 'my ${1:P} text', '${1:P}', 'zz ${2:P} ${1:q}', '@import url(${1:P});']
+
+
+def mk_user_raw():
+    """user raw snippets typed by their exact key: body with its tabstops, placeholder text verbatim"""
+    from vf.pipe import make_css_config, expand_concrete_tokens, Recorder
+
+    def harness(wrong):
+        def h(bi: int, pi: int, builtin: bool):
+            if not (0 <= bi < len(RAW_BODIES) and 0 <= pi < len(RAW_PLACEHOLDERS)):
+                return 'skip'
+            ph = RAW_PLACEHOLDERS[pi]
+            body = RAW_BODIES[bi].replace('P', ph)
+            if not ph:
+                body = body.replace('${1:}', '${1}').replace('${2:}', '${2}')
+            key = '@m' if builtin else 'zzq'
+            rec = Recorder()
+            cfg = make_css_config({'type': 'stylesheet', 'snippets': {key: body}, 'options': {'output.field': rec.field}})
+            out = expand_concrete_tokens(key, cfg)
+            exp = render(body, raw=True) + (' ' if wrong else '')
+            if out != exp:
+                return 'raw_snippet_body_differs:%d:%d' % (bi, pi)
+            want = [(int(m.group(1)), m.group(2) or '') for m in FIELD.finditer(body)]
+            return True if rec.fields == want else 'raw_snippet_tabstops_differ:%d:%d' % (bi, pi)
+        return h
+    return {'fn': harness(False), 'twin': harness(True), 'witnesses': [{'bi': 0, 'pi': 0, 'builtin': False}, {'bi': 1, 'pi': 1, 'builtin': True}],
+            'assumptions': ['user raw snippet under a fresh key or over the built-in `@m`; body from %r with P replaced by a placeholder from %r '
+                            '(solver-chosen indices)' % (RAW_BODIES, RAW_PLACEHOLDERS)],
+            'functions': ['stylesheet.resolve_as_snippet', 'stylesheet.snippets.create_snippet', 'stylesheet.format.*']}
+
+
 def jobs(tier):
     q = tier == 'quick'
     out = []
@@ -212,6 +293,9 @@ def jobs(tier):
         for part in range(6):
             out.append(Job('C06-b/keywords/%s/part%d' % (syn, part), 'vf.props.c06:mk_keywords', dict(syntax=syn, part=part, nparts=6),
                            shape='H', bound='table-exhaustive', budget=1500, weight=400))
+        out.append(Job('C06-b/function-keywords/%s' % syn, 'vf.props.c06:mk_function_keywords', dict(syntax=syn), shape='H',
+                       bound='table-exhaustive x 3 modes', budget=1500, weight=350))
+    out.append(Job('C06-c/user-raw', 'vf.props.c06:mk_user_raw', {}, shape='H', bound='5 bodies x 9 placeholders', budget=900, weight=200))
     for part in range(4):
         out.append(Job('C06-c/user-pairs/part%d' % part, 'vf.props.c06:mk_user_pairs', dict(part=part, nparts=4), shape='H',
                        bound='all ordered pairs', budget=1500, weight=300))
